@@ -124,6 +124,17 @@ CHECKS = {
             "TLA+ spec of the ACL as an ordered rule list with its public operations (AclSem over AceSem/AceText/Reseq) model-checked by TLC on a small universe with every packet evaluated; histories of public calls on ONE live Acl object validated step by step by TLC (Trace_Acl) at full size",
             "TLC proves on the small universe that splitting keeps every packet's decision when no multi-port neq is involved (and that the multi-port neq split does change a decision: deviation run); histories dominated by ungroup_ports() and conversion to NX-OS on IOS lists with eq/neq entries of 1..4 ports (incl. a port listed twice) are validated: split entries stand where the original stood in source-major order with one port per side and every other field kept, untouched entries keep their identity; a split of a multi-port neq is reported as the known finding F1.",
             "7 (C19)"),
+    "C06": ("model_checking",
+            "TLA+ readers / writers (AceText, AddrText, PortSem, Names) model-checked by TLC (reader inverts writer, tables "
+            "closed); objects of every exported class built, rendered and re-parsed twice; texts and their meaning judged by "
+            "TLC (Trace_C06, Trace_C01)",
+            "The explored space is the input grammar: TLC checks the reader/writer and table-closure lemmas; the harness builds "
+            "objects of every exported class (Port, Protocol, Option, Wildcard, Address, AddressAg, Remark, Ace, AceGroup, Acl "
+            "extended/standard with indentation 1..3 and names, AddrGroup with member numbers, acls()/addrgroups()) from native "
+            "and foreign text on both platforms, all version tables and switch settings, renders them and rebuilds them twice; "
+            "TLC requires the strict text+data fixed point for native inputs, stability from the first re-parse for foreign "
+            "ones, and that the rendered text - read by the specification - is native and means what the input meant.",
+            "7 (C06)"),
 }
 
 NOT_YET = {
